@@ -675,7 +675,7 @@ class Fn:
                     self.err(e, "struct.pack: %d values for %d codes" % (len(vs), n))
                 return self.hoist(e, "Py.structPackI %s [%s]" % (fmt, ", ".join(v.s for v in vs)), BYTES)
             self.err(e, "struct.%s is not in the subset" % f.attr)
-        # calls of other translated functions / constructors / externals
+        # calls of other translated functions / constructors
         target = None
         selfcall = False
         if name is not None:
@@ -685,11 +685,6 @@ class Fn:
                 target, selfcall = env[f.value.id].rec + "." + f.attr, f.value.id
             else:
                 target = f.value.id + "." + f.attr
-        if target in self.spec.get("externals", {}):
-            args = [self.expr(x, env) for x in e.args]
-            if any(a.t != INT for a in args):
-                self.err(e, "external %s called with a non-int argument" % target)
-            return V("(%s %s)" % (ext_name(target), " ".join(a.s for a in args)), INT)
         if target in self.mod.funcs:
             sig = self.mod.funcs[target]
             args = []
@@ -721,10 +716,6 @@ class Fn:
                 self.err(e, "too many arguments for %s" % target)
             if sig.get("ranges"):
                 self.err(e, "%s is translated under declared parameter ranges; calling it is not in the subset" % target)
-            for x in sig.get("externals", []):
-                if x not in self.spec.get("externals", {}):
-                    self.err(e, "%s needs the external %s, which is not declared here" % (target, x))
-                args.insert(0, ext_name(x))
             text = "%s %s" % (sig["lean"], " ".join(args))
             if sig["monadic"]:
                 return self.hoist(e, text, sig["ret"])
@@ -994,9 +985,7 @@ class Fn:
             key = t.value.id + "." + t.attr
             if key not in env:
                 self.err(t, "attribute %s is not declared for %s in the SRC table" % (t.attr, t.value.id))
-            if key not in self.spec.get("mutates", []):
-                self.err(t, "assignment to %s, which the SRC table does not list under `mutates`" % key)
-            return key
+            self.err(t, "assignment to the attribute %s (a method that changes its object) is not in the subset" % key)
         self.err(t, "assignment target %s is not in the subset" % ast.unparse(t))
 
     def assign(self, s, target, value, op, rest, env, k):
@@ -1091,7 +1080,7 @@ class Fn:
         return self.flush(text) + self.block(rest, env, k)
 
     def need_own(self, s, key, env):
-        if key in self.own(env) or key in self.spec.get("mutates", []):
+        if key in self.own(env):
             return
         self.err(s, "%s is mutated in place but is (or may be) shared with the caller or another name "
                     "(a parameter, a tuple, or an aliased object): not in the subset" % key)
@@ -1446,9 +1435,6 @@ class Fn:
 def indent(text, by="  "):
     return "\n".join(by + l if l else l for l in text.rstrip("\n").split("\n"))
 
-def ext_name(target):
-    return "ext_" + target.replace(".", "_")
-
 def init_fields(fn, cls):
     """[(attribute, default expr | None)] for a class whose __init__ is `self.a = a; self.b = b; …` over its
     own parameters, in parameter order"""
@@ -1486,8 +1472,8 @@ def parse_type(t):
     return ("rec", t[0], [(f, parse_type(ft)[0]) for f, ft in t[1]])
 
 def translate_function(mod, spec):
-    """spec keys: func (qualname), name (lean def name, default = qualname), params {name: type}, externals
-    {python callee: lean type}, mutates [obj.attr…], prefix_upto (variable), from_var (variable)"""
+    """spec keys: func (qualname), name (lean def name, default = qualname), params {name: type}, ranges
+    {parameter: (lo, hi)}, fuel (expression), prefix_upto (variable), from_var (variable)"""
     node = mod.find(spec["func"])
     if not isinstance(node, ast.FunctionDef):
         raise TranslationError("%s: %s is not a function" % (mod.relpath, spec["func"]))
@@ -1549,7 +1535,6 @@ def translate_function(mod, spec):
         params.append((p, parse_type(ptypes[p])))
     if a.defaults and "from_var" not in spec:
         pass      # defaults only matter at call sites; calls of translated functions must pass every argument
-    externals = spec.get("externals", {})
 
     def attempt(monadic):
         fn = Fn(mod, node, spec)
@@ -1557,8 +1542,6 @@ def translate_function(mod, spec):
         fn.notes.extend(deco_notes)
         env = {}
         binders = []
-        for x in externals:
-            binders.append("(%s : %s)" % (ext_name(x), externals[x]))
         for p, pt in params:
             if pt[0] == "rec":
                 env[p] = V(p, "rec", rec=pt[1])
@@ -1577,25 +1560,9 @@ def translate_function(mod, spec):
             env[key] = V(v.s, INT, lo, hi)
             binders.append("(h_%s : %s ≤ %s ∧ %s ≤ %s)" % (v.s, lit(lo), v.s, v.s, lit(hi)))
             fn.notes.append("translated for %d <= %s <= %d only (hypothesis h_%s)" % (lo, key, hi, v.s))
-        muts = spec.get("mutates", [])
         def fall(e2):
             raise TranslationError("%s:%d %s: control can reach the end of the function (returns None): not in the subset" % (
                 mod.relpath, node.end_lineno or node.lineno, spec["func"]))
-        if muts:
-            # a method that updates attributes of self: the result is (return value, attr1, attr2, …)
-            orig_result = fn.result
-            def result(v):
-                r = V("(%s)" % ", ".join([v.s] + [fn.cur_env[m].s for m in muts]),
-                      "tuple:" + ",".join([v.t] + [fn.cur_env[m].t for m in muts]))
-                return orig_result(r)
-            # block() passes env down; keep the latest env for the return statement
-            orig_block = fn.block
-            def block(stmts, env_, k):
-                fn.cur_env = env_
-                return orig_block(stmts, env_, k)
-            fn.block = block
-            fn.result = result
-            fn.ltype = (lambda old: (lambda t: " × ".join(t[6:].split(",")) if t.startswith("tuple:") else old(t)))(fn.ltype)
         text = fn.block(body, env, fall)
         return fn, binders, text
 
@@ -1615,7 +1582,7 @@ def translate_function(mod, spec):
     lean = "%s\ndef %s %s : %s :=\n%s" % (doc, lean_name, " ".join(binders), rett, indent(text))
     mod.funcs[spec["func"] if "prefix_upto" not in spec and "from_var" not in spec else "#" + lean_name] = {
         "lean": lean_name, "params": params, "ret": fn.rettype, "monadic": monadic,
-        "externals": list(externals), "ranges": dict(spec.get("ranges", {}))}
+        "ranges": dict(spec.get("ranges", {}))}
     mod.defs.append(lean)
     return lean_name, monadic
 
